@@ -130,9 +130,9 @@ fn c14() -> Property {
                 note: "real client <-> scripted peer that answers the application's detach, end or close with an error (optionally before it has seen the endpoint's frame)",
             },
         ],
-        quick_runs: 3 * scen::c14::CASES,
+        quick_runs: 4 * scen::c14::CASES,
         thorough_runs: 40 * scen::c14::CASES,
-        rule: "(a) per seed (= network behaviour and schedule) a fixed reference conversation (open, two sessions, an unsettled sender with three batchable sends of which one is multi-frame plus a plain send, a receiver with two deliveries, detach, close, end, close) is run once per (direction, byte offset 0..=MAX, cut kind in {eof, reset, stall-then-eof}); offsets beyond the conversation are counted as skipped (trivial); (b) per seed one scripted-peer run with the stop kind, error presence and position drawn from the seed; distinct = distinct event-log hash",
+        rule: "(a) per seed (= network behaviour and schedule) a fixed reference conversation (open, two sessions, an unsettled sender with three batchable sends of which one is multi-frame plus a plain send, a receiver with two deliveries, detach, close, end, close) is run once per (direction, byte offset 0..=2200 client->listener and 0..=1200 listener->client, cut kind in {eof, reset, stall-then-eof}), with the listener's receiver credit (default or 1) and session incoming window (default or 2) drawn from the seed; offsets beyond the conversation are counted as skipped (trivial); (b) per seed one scripted-peer run with the stop kind, error presence and position drawn from the seed; distinct = distinct event-log hash",
         assumptions: vec![
             "a call returning Ok after the cut is accepted when it raced the failure (its request was queued before the engine noticed); calls made after quiescence must fail",
             "connection.close() may return Ok only when both close frames crossed the wire before the cut",
